@@ -1,0 +1,32 @@
+//! Verification hooks (compiled only with `--cfg polytune_verif`).
+//!
+//! A harness may install one *gate* function. The state machine awaits the
+//! gate at a few internal scheduling points (after a command is dequeued,
+//! before the spawned MPC / constants task first runs, before the leader
+//! acquires its permit). Without an installed gate every call returns
+//! immediately, i.e. the code path is the original one.
+
+use std::{
+    future::Future,
+    pin::Pin,
+    sync::{Arc, RwLock},
+};
+
+/// `(point, detail, tag)` -> future that resolves when the harness lets the
+/// state machine proceed.
+pub type GateFn =
+    Arc<dyn Fn(&'static str, &'static str, u64) -> Pin<Box<dyn Future<Output = ()> + Send>> + Send + Sync>;
+
+static GATE: RwLock<Option<GateFn>> = RwLock::new(None);
+
+/// Install (or remove) the process-wide gate function.
+pub fn set_gate(g: Option<GateFn>) {
+    *GATE.write().expect("verif gate lock") = g;
+}
+
+pub(crate) async fn gate(point: &'static str, detail: &'static str, tag: u64) {
+    let g = GATE.read().expect("verif gate lock").clone();
+    if let Some(g) = g {
+        g(point, detail, tag).await;
+    }
+}
